@@ -15,6 +15,7 @@ import contextlib
 import io
 import json
 import logging
+import os
 import re
 import signal
 import time
@@ -26,9 +27,26 @@ import numpy as np
 from vf.common import Ctx, pmap, stable_hash
 from vf import c10_catalogue as cat
 from vf.c10_core import build_circuit, describe, entry_dev, hs_cost, sim
-from vf.loopback import TaskError, run_workflow
+from vf.loopback import TaskError, run_task
+from bqskit.compiler.task import CompilationTask
+
+
+def run_workflow(circuit: Any, workflow: Any, data: dict | None = None) -> Any:
+    """vf.loopback.run_workflow with the logging level a real `Compiler`
+    would give the task (the lowest level configured, WARNING by default;
+    the bare loop-back task runs at level 0 = everything, which no client
+    configuration produces by default)."""
+    task = CompilationTask(circuit, workflow)
+    task.request_data = True
+    task.logging_level = logging.WARNING
+    if data:
+        task.data.update(data)
+    return run_task(task)
 
 QUICK_BUDGET = 95.0
+# exact passes: besides the HS cost (1e-9) every matrix entry must agree up
+# to one global phase.  Measured on the unchanged tree: < 1e-12 everywhere.
+EXACT_ENTRY = 1e-7
 THOROUGH_BUDGET = 36 * 60.0
 
 
@@ -56,6 +74,12 @@ _LOG = _Collect()
 
 
 def _init_worker() -> None:
+    os.environ['RUST_BACKTRACE'] = '0'
+    import multiprocessing
+    if multiprocessing.current_process().name != 'MainProcess':
+        # native panics print to fd 2; pool workers report through values
+        fd = os.open(os.devnull, os.O_WRONLY)
+        os.dup2(fd, 2)
     lg = logging.getLogger('bqskit')
     lg.handlers[:] = [_LOG]
     lg.propagate = False
@@ -146,7 +170,7 @@ def _execute(row: cat.Row, opts: dict, spec: dict, seed: int) -> dict:
             cin = build_circuit(spec) if pre is None else cin
             u_in = sim(cin)
             r['acts'] = bool(row.acts_on(opts, cin))
-            t0 = time.time()
+            t0 = time.process_time()
             try:
                 wf, data = row.make(opts, spec, seed)
             except Exception as e:  # constructor refused the options
@@ -174,7 +198,7 @@ def _execute(row: cat.Row, opts: dict, spec: dict, seed: int) -> dict:
                 ))
                 return r
             finally:
-                r['secs'] = time.time() - t0
+                r['secs'] = time.process_time() - t0
     except _CaseTimeout:
         r['outcome'] = 'timeout'
         return r
@@ -198,7 +222,8 @@ def _execute(row: cat.Row, opts: dict, spec: dict, seed: int) -> dict:
     r['ent'] = entry_dev(target, u_out)
     r['changed'] = describe(cin) != describe(cout)
     tol = row.tol(opts, spec)
-    if not (cost <= tol):
+    ent_bad = row.kind == 'exact' and r['ent'] > EXACT_ENTRY
+    if not (cost <= tol) or ent_bad:
         rep = row.reported_failure(opts, cin, cout, r['warnings'])
         if rep is not None:
             r['outcome'] = 'pass-reported-failure'
@@ -207,8 +232,9 @@ def _execute(row: cat.Row, opts: dict, spec: dict, seed: int) -> dict:
         mag = 'O(1)' if cost > 1e-3 else 'beyond-tolerance'
         r['viol'].append((
             f'{row.name}:unitary-differs:{mag}',
-            f'{row.name}{_fmt(opts)}: HS cost {cost:.3e} > tolerance '
-            f'{tol:.1e} (max entry deviation {r["ent"]:.2e}); '
+            f'{row.name}{_fmt(opts)}: HS cost {cost:.3e} (tolerance '
+            f'{tol:.1e}), max entry deviation up to global phase '
+            f'{r["ent"]:.2e}; '
             f'in={describe(cin)[:6]} out={describe(cout)[:8]}',
         ))
         return r
@@ -304,7 +330,6 @@ def _plan(tier: str, seed: int, only: set | None = None) -> list[list[tuple]]:
 
 
 def run(ctx: Ctx) -> None:
-    import os
     only = set(filter(None, os.environ.get('C10_ONLY', '').split(','))) or None
     plans = _plan(ctx.tier, ctx.seed, only)
     _DOM_CACHE.clear()
@@ -329,14 +354,14 @@ def run(ctx: Ctx) -> None:
         nontrivial += agg['acts']
         d = per_row.setdefault(name, {
             'cases': 0, 'acts_on_input': 0, 'outcomes': {}, 'max_hs_cost': 0.0,
-            'max_entry_dev': 0.0, 'pass_seconds': 0.0, 'pre_errors': {},
+            'max_entry_dev': 0.0, 'pass_cpu_seconds': 0.0, 'pre_errors': {},
             'not_ok_by_option': {},
         })
         d['cases'] += agg['cases']
         d['acts_on_input'] += agg['acts']
         d['max_hs_cost'] = max(d['max_hs_cost'], agg['max_cost'])
         d['max_entry_dev'] = max(d['max_entry_dev'], agg['max_ent'])
-        d['pass_seconds'] += agg['secs']
+        d['pass_cpu_seconds'] += agg['secs']
         for k, v in agg['outcomes'].items():
             d['outcomes'][k] = d['outcomes'].get(k, 0) + v
             ctx.outcomes[k] += v
@@ -365,7 +390,7 @@ def run(ctx: Ctx) -> None:
         ctx.part(
             name, kind=row.kind, domain_size=tot,
             options=len(row.options(ctx.tier, ctx.seed)),
-            **{k: (round(v, 12) if isinstance(v, float) else v)
+            **{k: (float(f'{v:.3e}') if isinstance(v, float) else v)
                for k, v in d.items()},
         )
         if d.get('cases', 0) < tot:
